@@ -277,7 +277,7 @@ func RunEntry(l *driver.Loaded, b *Builder, entryKey string, opt RunOpts) (*Entr
 				rep.Results = append(rep.Results, ores(entryKey, "header", "", vid, len(hd) == 0, strings.Join(hd, "; ")+" on path "+desc, in.Src))
 				own := in.CheckOwnership()
 				rep.Results = append(rep.Results, ores(entryKey, "ownership", "inputs-unmodified", vid, len(own) == 0, strings.Join(own, "; ")+" on path "+desc, in.Src))
-				if opt.NoVC || len(con.Attrs["o-ensures"]) == 0 && len(con.Attrs["serves"]) == 0 && len(con.Attrs["o-rel-ensures"]) == 0 {
+				if opt.NoVC || len(con.Attrs["o-ensures"]) == 0 && len(con.Attrs["serves"]) == 0 && len(con.Attrs["o-rel-ensures"]) == 0 && len(con.Attrs["o-closure-ensures"]) == 0 && len(con.Attrs["o-closure-inv"]) == 0 {
 					continue
 				}
 				if only := con.Attr("o-only"); only != "" && !strings.Contains(","+PathTag(p)+",", ","+only+",") {
